@@ -482,7 +482,7 @@ PROPS = {
   # Model/{Lockup,Incentives,Twap,Superfluid,CLPool}Genesis, Proofs/{LockupGenesisSim,LockupGenesisOps,LockupGenesis,
   # IncentivesGenesisWF,IncentivesGenesis,IncentivesGenesisRun,TwapGenesis,SuperfluidGenesis,SuperfluidGenesisAccs,CLPoolGenesis}
   "modules": ["OsmoVerif.Props.C19", "OsmoVerif.Props.C19TokenFactory", "OsmoVerif.Props.C19PoolManager", "OsmoVerif.Props.C19Gamm", "OsmoVerif.Props.C19MintEpochs", "OsmoVerif.Props.C19CL"],
-  "min_theorems": 125,
+  "min_theorems": 132,
   "fingerprints": [],
   "engines": [{"name": "det", "kind": "app", "n": {"quick": 200, "thorough": 1600}, "shards": {"quick": 4, "thorough": 16}},
               # the module engines of C06/C09/C10/C11/C07 run the op `exportimport` (REAL ExportGenesis -> module store wiped -> REAL
